@@ -62,6 +62,8 @@ def render(net, lex, opts=None):
 
     def base_type(s):
         enc = "IEEE754" if s["float"] else ("2C" if s["signed"] else "NONE")
+        if enc == "NONE" and s["size"] == 1 and L.level and L.rng.random() < 0.5:
+            enc = "BOOLEAN"          # a one-bit flag may have a boolean base type (unsigned)
         key = (enc, s["size"])
         if key not in base_types:
             name = "BT_%s_%d" % (enc, s["size"])
